@@ -6,6 +6,9 @@ import (
 	"reflect"
 	"sort"
 
+	"github.com/PapaCharlie/go-restli/v2/fnv1a"
+
+	"verif/mc/bind"
 	"verif/mc/hcli"
 	"verif/mc/report"
 	"verif/mc/schema"
@@ -93,12 +96,28 @@ func buildPool(w *schema.Type) []*poolItem {
 	for _, v := range schema.Alphabet(w, true) {
 		add(v, v.Dev)
 		pool[len(pool)-1].base = true
+		baseItem := pool[len(pool)-1]
 		add(v.Clone(), v.Dev+" (copy)")
 		for i, m := range mapInsertionVariants(v) {
 			add(m, fmt.Sprintf("%s (map order %d)", v.Dev, i))
 		}
 		for i, m := range nilEmptySwaps(v) {
 			add(m, fmt.Sprintf("%s (nil<->empty %d)", v.Dev, i))
+		}
+		// a value sharing storage with another one: its array is a prefix slice of the other value's array (what
+		// `page.Items = all.Items[:n]` builds); identity of the backing array says nothing about equality
+		if ft := w.Field("fr"); ft != nil && ft.Type.Kind == schema.Array && v.Fields["fr"] != nil && len(v.Fields["fr"].Items) >= 2 {
+			orig := baseItem.ptr
+			if orig.Kind() == reflect.Ptr && orig.Elem().Kind() == reflect.Struct {
+				if f := orig.Elem().FieldByName(bind.GoFieldName("fr")); f.IsValid() && f.Kind() == reflect.Slice && f.Len() >= 2 {
+					cp := reflect.New(orig.Elem().Type())
+					cp.Elem().Set(orig.Elem())
+					cp.Elem().FieldByName(bind.GoFieldName("fr")).Set(f.Slice(0, f.Len()-1))
+					pv := v.Clone()
+					pv.Fields["fr"].Items = pv.Fields["fr"].Items[:len(pv.Fields["fr"].Items)-1]
+					pool = append(pool, &poolItem{v: pv, label: v.Dev + " (prefix slice of the same array)", ptr: cp, nan: pv.HasNaN()})
+				}
+			}
 		}
 		// round-tripped copies: the value as decoded from its own JSON / ROR2 encoding
 		for _, f := range []string{"json", "header"} {
@@ -256,8 +275,49 @@ func bearsMap(t *schema.Type, seen map[*schema.Type]bool) bool {
 	return false
 }
 
+// hashPrimitives: every hash object the fnv1a package hands out is the caller's own: writing to one must not show in
+// the next one (the 0-hash of nil records, unknown enum constants and empty records is handed out by ZeroHash).
+func hashPrimitives(a *hcli.Args, rep *report.Report) {
+	s := rep.S("hash-primitives")
+	s.Bounds = "fnv1a.ZeroHash, NewHash and the Hash<Primitive> helpers: the value handed out, written to (every Add* method), handed out again: same initial state"
+	if a.Shard != 0 {
+		return
+	}
+	ctors := map[string]func() fnv1a.Hash{
+		"ZeroHash":   fnv1a.ZeroHash,
+		"NewHash":    fnv1a.NewHash,
+		"HashInt32":  func() fnv1a.Hash { return fnv1a.HashInt32(7) },
+		"HashString": func() fnv1a.Hash { return fnv1a.HashString("x") },
+		"HashBytes":  func() fnv1a.Hash { return fnv1a.HashBytes([]byte{1, 2}) },
+	}
+	writes := map[string]func(h fnv1a.Hash){
+		"AddInt32": func(h fnv1a.Hash) { h.AddInt32(5) }, "AddInt64": func(h fnv1a.Hash) { h.AddInt64(5) }, "AddString": func(h fnv1a.Hash) { h.AddString("y") },
+		"AddBool": func(h fnv1a.Hash) { h.AddBool(true) }, "AddBytes": func(h fnv1a.Hash) { h.AddBytes([]byte{9}) }, "AddFloat64": func(h fnv1a.Hash) { h.AddFloat64(1.5) },
+		"Add": func(h fnv1a.Hash) { h.Add(fnv1a.HashInt32(3)) },
+	}
+	for cn, ctor := range ctors {
+		for wn, write := range writes {
+			first := ctor()
+			before := first.String()
+			write(first)
+			again := ctor().String()
+			s.Evaluations++
+			s.Transitions++
+			s.Traces++
+			s.States++
+			if again != before {
+				rep.Fail(fmt.Sprintf("%s eq hash-object-shared %s", a.Gen, cn), fmt.Sprintf("fnv1a.%s() was %s; after %s on the object it returned, the next fnv1a.%s() is %s", cn, before, wn, cn, again), nil)
+				s.Class("fail:shared")
+			} else {
+				s.Class("ok:" + cn)
+			}
+		}
+	}
+}
+
 func partC10(a *hcli.Args, rep *report.Report, univName string, u *schema.Universe) {
 	complexKeys(a, rep, u)
+	hashPrimitives(a, rep)
 	s := rep.S("equals-hash-pairs")
 	s.Bounds = fmt.Sprintf("universe=%s: per wrapper, pool = reduced deviation<=1 alphabet + copies + map insertion orders + nil/empty swaps + round-tripped copies; all ordered pairs", univName)
 	digest := sha256.New()
@@ -282,6 +342,14 @@ func partC10(a *hcli.Args, rep *report.Report, univName string, u *schema.Univer
 			p.hash = h
 			if common {
 				fmt.Fprintf(digest, "%s|%s|%s\n", w.Name, p.v.String(), h)
+			}
+		}
+		// purity: hashing everything once more, after all those hashes were handed out and written to, gives the same hashes
+		for _, p := range pool {
+			if h2, err := callHash(p.ptr); err == nil && h2 != p.hash {
+				rep.Fail(fmt.Sprintf("%s eq hash-not-a-function-of-the-value %s", a.Gen, leaf(p.label)),
+					fmt.Sprintf("type %s value %s: ComputeHash gave %s, and %s after the hashes handed out so far had been written to", w.Name, p.v, p.hash, h2), nil)
+				s.Class("fail:hash-impure")
 			}
 		}
 		if !a.Mine(wi) {
